@@ -59,6 +59,23 @@ pub const SEEDS: &[Seed] = &[
             "const A: u8 = ⟦0:1¦2⟧;\nconst B: u8 = A + ⟦1:1¦255⟧;\n⟦2:¦// between\n⟧fn f(x: u8) -> u8 {\n⟦3:¦    const LOCAL: u8 = 4;\n⟧    let y = x + B;\n⟦4:¦    const _: () = ();\n⟧    ⟦5:y¦z⟧ + ⟦6:A¦B⟧\n}\n⟦7:¦fn g() -> u8 { f(A) }\n⟧",
         )],
     },
+    Seed {
+        name: "closures-loops-matches",
+        nflags: 9,
+        files: &[(
+            "lib.cairo",
+            "⟦0:¦// top\n⟧#[derive(Drop, Copy)]\nenum E {\n    A,\n    B: u8,\n⟦1:¦    C: (u8, u8),\n⟧}\nfn val(e: E) -> u8 {\n    match e {\n        E::A => 1,\n        E::B(x) => x ⟦2:/¦%⟧ 2,\n⟦1:¦        E::C((p, _q)) => p,\n⟧    }\n}\n⟦3:¦\n// between\n⟧fn f(a: u8) -> u32 {\n    let k = a / 2;\n    let c = |x: u8| x / 2 + ⟦4:k¦a⟧;\n    let mut t: u32 = 0;\n    let mut i: u8 = 0;\n    ⟦5:while i != 3¦loop⟧ {\n⟦5:¦        if i == 3 { break; }\n⟧        i += 1;\n⟦6:¦        if i == 2 { continue; }\n⟧        t += c(i).into();\n    }\n    for v in array![E::A, E::B(a)].span() {\n        t += val(*v).into();\n    }\n    t\n⟦7:}¦⟧\n⟦8:¦fn g(a: u8) -> u8 { let d = |x: u8| x + ; d(a) }\n⟧",
+        )],
+    },
+    Seed {
+        name: "three-file-tree-reexports",
+        nflags: 10,
+        files: &[
+            ("lib.cairo", "⟦0:¦// lib\n⟧mod a;\nmod b;\n⟦1:¦mod inl {\n    pub mod deep {\n        pub fn z(x: u8) -> u8 { x / 2 }\n    }\n    pub use deep::z as zz;\n}\n⟧use b::⟦2:via_b¦via_b2⟧;\nfn f(x: u8) -> u8 {\n    ⟦2:via_b¦via_b2⟧(x) / 2 + a::⟦3:K¦K2⟧ / 2⟦1:¦ + inl::zz(x) / 4⟧\n}\n⟦4:¦impl LocalT of a::T<u16> { fn get(self: u16) -> u8 { 1 } }\n⟧"),
+            ("a.cairo", "⟦5:¦// a\n\n⟧pub const ⟦3:K¦K2⟧: u8 = ⟦6:10¦11⟧;\npub trait T<X> {\n    fn get(self: X) -> u8;\n}\npub impl TU8 of T<u8> {\n    fn get(self: u8) -> u8 { self / ⟦7:2¦3⟧ }\n}\n"),
+            ("b.cairo", "use super::a::{T, TU8};\n⟦8:¦// b\n⟧pub fn ⟦2:via_b¦via_b2⟧(x: u8) -> u8 {\n    x.get() + ⟦9:TU8::get(x)¦T::<u8>::get(x) + (⟧\n}\n"),
+        ],
+    },
 ];
 
 /// Renders one file of the template under `flags`.
@@ -239,7 +256,7 @@ fn run_all(ctx: &mut Ctx) {
 pub static C13: CheckDef = CheckDef {
     id: "C13",
     level: "model_checking",
-    rule: "Model: project content = render(seed, flags), flags in {0,1}^m (m = 8..10 per seed): comment at top / between items / inside a body, extra let, extra const item / const statement, identifier renamed at the definition only or consistently (also across files), literal changed, type changed, closing brace deleted, unterminated item inserted, item deleted / replaced / duplicated impl, derive list changed, second module file edited, value out of range. An edit flips one flag; a step is (edit, query) with query in {diagnostics+Sierra, none}. Seeds: plain functions; struct+trait+generics; derive/plugin-generated code; a two-file module tree; consts and const statements (quick: first 3). Enumerated: EVERY step sequence of length <= 2 (thorough: <= 3) from the initial content and from each of the m single-flag contents, by depth-first search where every node is a fork()ed copy-on-write image of the real RootDatabase (override_file_content! applied to the live database). Oracle: at every queried node, hash(diagnostics text with line:col) and hash(Sierra text) of the incremental database equal those of the same content compiled in a fork of a pristine image that never saw another version of the project (memoised per content); that shortcut is itself bound to a brand-new RootDatabase on every start content. states = distinct contents reached, transitions = steps executed, traces_validated_against_impl = queried nodes compared (every transition is executed on the implementation; there is no separate model to drift).",
+    rule: "Model: project content = render(seed, flags), flags in {0,1}^m (m = 8..10 per seed): comment at top / between items / inside a body, extra let, extra const item / const statement, identifier renamed at the definition only or consistently (also across files), literal changed, type changed, closing brace deleted, unterminated item inserted, item deleted / replaced / duplicated impl, derive list changed, second module file edited, value out of range. An edit flips one flag; a step is (edit, query) with query in {diagnostics+Sierra, none}. Seeds: plain functions; struct+trait+generics; derive/plugin-generated code; a two-file module tree; consts and const statements; closures + loops + matches with an enum variant added consistently; a three-file tree with inline modules, re-exports, cross-file consts / traits / impls and renames (quick: first 3). Enumerated: EVERY step sequence of length <= 2 (thorough: <= 3) from the initial content and from each of the m single-flag contents, by depth-first search where every node is a fork()ed copy-on-write image of the real RootDatabase (override_file_content! applied to the live database). Oracle: at every queried node, hash(diagnostics text with line:col) and hash(Sierra text) of the incremental database equal those of the same content compiled in a fork of a pristine image that never saw another version of the project (memoised per content); that shortcut is itself bound to a brand-new RootDatabase on every start content. states = distinct contents reached, transitions = steps executed, traces_validated_against_impl = queried nodes compared (every transition is executed on the implementation; there is no separate model to drift).",
     assumptions: &["fork() copy-on-write semantics; single-threaded workers (no rayon pool exists at fork time)", "the reference for a content is a database that compiled only an unrelated warm-up crate; equality with a brand-new database is checked on the start contents"],
     run: run_all,
     stack_mb: 32,
@@ -247,3 +264,15 @@ pub static C13: CheckDef = CheckDef {
     wall_cap_s: (55, 1700),
     shards: 0,
 };
+
+/// Debug: diagnostics of every seed's initial content and of each single-flag content.
+pub fn debug_seeds() {
+    for seed in SEEDS {
+        for flags in std::iter::once(0u32).chain((0..seed.nflags).map(|k| 1u32 << k)) {
+            let mut db = new_db(&Cfg::DEFAULT);
+            let ci = apply_content(&mut db, seed, flags);
+            let (d, s) = observe(&db, &ci);
+            println!("== {} flags={flags:#b}: diag {} bytes, sierra {} bytes{}", seed.name, d.len(), s.len(), if flags == 0 && !d.is_empty() { format!("\n{d}") } else { String::new() });
+        }
+    }
+}
